@@ -321,6 +321,8 @@ class Interp:
         if fn.name in self.prims and f.env is None:
             return self.call_prim(fn.name, args, kwargs, node)
         if _is_generator(fn.node):
+            if hasattr(self, 'p_' + fn.name):
+                return getattr(self, 'p_' + fn.name)(args, [kwargs.get(k) for k in ()] and kwargs or kwargs, node)
             raise Undecided('generator function %s has no abstract model' % fn.key)
         self.depth += 1
         if self.depth > self.max_depth:
@@ -551,6 +553,8 @@ class Interp:
                 return AnnotV('Token.' + attr)
             if attr in ('__module__', '__qualname__', '__name__'):
                 return SymStr('%s.%s' % (obj.name, attr), nonempty=True)
+            if attr in ('__repr__', '__str__', '__format__'):
+                return Prim('%s.%s' % (obj.name, attr))
             return Sym('%s.%s' % (obj.name, attr))
         if isinstance(obj, CtxV):
             if attr == 'multiline_strategy':
@@ -991,6 +995,10 @@ class Interp:
             if r is not NotImplemented:
                 return r
         h = getattr(self, 'p_' + name, None)
+        if h is None and name.endswith(('.__repr__', '.__str__', '.__format__')):
+            return SymStr('%s(%s)' % (name, ','.join(_prov(x) for x in args)), nonempty=True)
+        if h is None and name.startswith('math.'):
+            return Sym('%s(%s)' % (name, ','.join(_prov(x) for x in args)))
         if h is None:
             raise Undecided('call of unknown function %s (line %s)' % (name, getattr(node, 'lineno', '?')))
         return h(args, kwargs, node)
